@@ -7,7 +7,8 @@ aliases, scratch build) are checked by
   (c) element counts: one node shape per node, one <path stroke=..> per stored entry (directed: between
       distinct positions), three per dendrogram merge, one <text> per name;
   (d) every name is the text of exactly one <text> element (up to the site's replacement of & < >);
-  (e) skeleton diff against the Coq model's document (element kinds, attribute names, text-anchor, texts);
+  (e) skeleton diff against the Coq model's document (element kinds, attribute names, text-anchor, texts), and the
+      counting function of the theorem svg_counts_on_string evaluated in Coq on the implementation's string;
   (f) the file written with `filename` equals the returned string.
 """
 import xml.etree.ElementTree as ET
@@ -604,7 +605,7 @@ def run(ctx, scratch):
             cases.append(graph_case(rng, 5, rng.choice(['undirected', 'directed']), force_name=s))
             cases.append(bigraph_case(rng, 4, 'default', force_name=s))
             cases.append(dendrogram_case(rng, 5, 'random', force_name=s))
-        reps = 1 if quick else 4
+        reps = 1 if quick else 8
         for fam, k in (('undirected', 330), ('directed', 260), ('coincide', 160), ('noposition', 40), ('nomatrix', 25)):
             for _ in range(k * reps):
                 cases.append(graph_case(rng, nmax, fam))
@@ -693,7 +694,7 @@ def run(ctx, scratch):
     ctx.extra['files_compared'] = n_file
 
     # ---- (b) proved checker inside Coq on the implementation's strings, (e) skeleton diff with the model
-    budget = 150 if quick else 600
+    budget = 150 if quick else 1000
     pool = [t for t in results]
     forced_n = min(len(pool), 3 * 38)
     chosen = pool[:forced_n:2] if not ctx.replay else pool
@@ -701,8 +702,12 @@ def run(ctx, scratch):
     if rest and len(chosen) < budget:
         chosen += rng.sample(rest, min(len(rest), budget - len(chosen)))
     if chosen:
-        verdicts = coq_eval('c20wf', COQ_IMPORTS, ['wf_check_root "svg" %s' % cstr(svg) for (_, svg, _) in chosen],
-                            prelude=PRELUDE, shard=25)
+        both = coq_eval('c20wf', COQ_IMPORTS,
+                        ['let d := %s in (wf_check_root "svg" d, (count_starts P_text d, count_starts P_circle d, '
+                         'count_starts P_edge d, count_starts P_wedge d))' % cstr(svg) for (_, svg, _) in chosen],
+                        prelude=PRELUDE, shard=25)
+        verdicts = [b[0] for b in both]
+        string_counts = {i: b[1] for (i, _, _), b in zip(chosen, both)}
         with_model = [(i, svg, skel) for (i, svg, skel) in chosen if skel is not None]
         models = coq_eval('c20model', COQ_IMPORTS, [model_expr(cases[i][3]) for (i, _, _) in with_model],
                           prelude=PRELUDE, shard=2)   # small shards: coq_eval reads a shard's output through one 64 KB pipe
@@ -721,6 +726,13 @@ def run(ctx, scratch):
                               case=args, meta=meta, oracle='wf_check_vs_etree', observed=svg[:600], **base)
             if skel is None:
                 continue
+            # the counting function of svg_counts_on_string, evaluated on the implementation's string
+            got = counts_of(skel)
+            sc = tuple(string_counts[i])
+            if sc != (got['text'], got['circle'], got['edge'], got['wedge']):
+                ctx.violation(site, 'count_starts on the string (text, circle, edge path, wedge) differs from the ElementTree counts',
+                              case=args, meta=meta, oracle='string_counts', expected=[got['text'], got['circle'], got['edge'], got['wedge']],
+                              observed=list(sc), **base)
             try:
                 mtag, mskel = skeleton(model_of[i])
             except ET.ParseError as e:
